@@ -10,8 +10,8 @@ PROPERTY = "C07"
 RULE = ("history: SpatiallyAdaptiveExtendScheme (d 2-3, lmin 1, lmax 2-4, coarsening versions 0-2, 0-3 splits before extend, "
         "automatic extend/split on/off, single-dimension splitting on/off, boundary on/off, boxes) driven for up to 16 steps by a "
         "scripted decision tape or by the library's own ErrorCalculatorExtendSplit on a kinked integrand; after EVERY evaluation: "
-        "leaves are proper boxes, volumes add up, interiors pairwise disjoint (exact comparisons), generated points (random, and "
-        "on faces/edges/corners of areas) are assigned to exactly one leaf that contains them, coarsening values >= 0, and per "
+        "leaves are proper boxes, volumes add up, interiors pairwise disjoint (exact comparisons), generated points (fresh random ones, points "
+        "on faces/edges/corners of areas, and one fixed point set queried again after every evaluation) are assigned to exactly one leaf that contains them, coarsening values >= 0, and per "
         "area the computed component grids' coefficients sum to 1 at every area grid point and the combined interpolant reproduces "
         "the integrand there. Non-trivial = history in which at least one area was extended and at least one was split. "
         "Distinct = distinct case dict.")
@@ -23,7 +23,7 @@ ASSUMPTIONS = [
 ]
 
 
-def check(out, sub, sa, case, g, rng, tag):
+def check(out, sub, sa, case, g, rng, tag, fixed_pts=()):
     dim = sa.dim
     a = np.array(case["a"])
     b = np.array(case["b"])
@@ -61,20 +61,31 @@ def check(out, sub, sa, case, g, rng, tag):
         pts.append(tuple(p))
     pts = list(dict.fromkeys(pts))
     leaves = {id(o) for o in objs}
-    with drive.quiet():
-        assign = sa.get_points_assignement_to_areas(pts)
-    count = {p: 0 for p in pts}
-    for area, contained in assign:
-        for p in contained:
-            p = tuple(p)
-            count[p] = count.get(p, 0) + 1
-            if id(area) not in leaves:
-                out.bad(sub + "/assignment/not-a-leaf", "%s point %s" % (tag, p))
-            if any(p[d] < area.start[d] or p[d] > area.end[d] for d in range(dim)):
-                out.bad(sub + "/assignment/area-does-not-contain-point", "%s point %s area %s %s" % (tag, p, list(area.start), list(area.end)))
-    wrong = [(p, c) for p, c in count.items() if c != 1]
-    if wrong:
-        out.bad(sub + "/assignment/not-exactly-one-leaf", "%s %s" % (tag, wrong[:3]))
+    # the fresh points, and separately one point list that is identical after every evaluation of the history
+    # (a user monitoring fixed points, as the driver's own `evaluation_points` option does)
+    queries = [("repeated-query", list(fixed_pts))]
+    if case["fseed"] % 2 == 0:
+        # in every second case ONLY the identical list is queried, so that consecutive queries of the history are identical
+        queries.insert(0, ("fresh", pts))
+    for which, plist in queries:
+        if not plist:
+            continue
+        with drive.quiet():
+            assign = sa.get_points_assignement_to_areas(plist)
+        count = {p: 0 for p in plist}
+        for area, contained in assign:
+            for p in contained:
+                p = tuple(p)
+                count[p] = count.get(p, 0) + 1
+                if id(area) not in leaves:
+                    out.bad(sub + "/assignment/not-a-leaf", "%s (%s points) point %s assigned to %s-%s coarsening %s which is not a current leaf" % (
+                        tag, which, p, list(area.start), list(area.end), area.coarseningValue))
+                    break
+                if any(p[d] < area.start[d] or p[d] > area.end[d] for d in range(dim)):
+                    out.bad(sub + "/assignment/area-does-not-contain-point", "%s point %s area %s %s" % (tag, p, list(area.start), list(area.end)))
+        wrong = [(p, c) for p, c in count.items() if c != 1]
+        if wrong:
+            out.bad(sub + "/assignment/not-exactly-one-leaf", "%s (%s points) %s" % (tag, which, wrong[:3]))
     # local combination per area
     npts_checked = 0
     for o in objs:
@@ -126,10 +137,15 @@ def run(case):
     f = drive.vector_function([g])
     sa, op = drive.build_es(case, f)
     rng = np.random.default_rng(case["fseed"] + 1)
+    a_, b_ = np.array(case["a"]), np.array(case["b"])
+    m = 9 if case["dim"] == 2 else 5
+    fixed_pts = [tuple(float(a_[d] + (b_[d] - a_[d]) * i[d] / (m - 1)) for d in range(case["dim"]))
+                 for i in itertools.product(range(m), repeat=case["dim"])]
+    fixed_pts += [tuple(float(a_[d] + (b_[d] - a_[d]) * rng.random()) for d in range(case["dim"])) for _ in range(10)]
     st_ = dict(ext=0, spl=0, steps=0, before=None, lmax0=case["lmax"], single=0, maxareas=0)
 
     def on_eval(k):
-        n = check(out, sub, sa, case, g, rng, "after evaluation %d" % k)
+        n = check(out, sub, sa, case, g, rng, "after evaluation %d" % k, fixed_pts)
         st_["maxareas"] = max(st_["maxareas"], n)
 
     def before_refine(k):
